@@ -115,9 +115,11 @@ def specStep [DecidableEq α] (E : Elem α) (sp : Sp α) (op : Op α) : Sp α ×
       let l := sp.get h
       let i1 := i % (l.length + 1)
       let i2 := i1 + j % (l.length - i1 + 1)
-      let i2 := if i2 = 0 then l.length else i2     -- documented: "if i2 is omitted (0) the subarray takes elements up to the last"
+      -- an explicit `i2 = 0` is the empty range (code after 4e6b3b8)
       (sProduce sp t ((l.drop i1).take (i2 - i1)), .ok)
     else (sp, .skip)
+  | .slicee t h i =>
+    if sp.occ h then (sProduce sp t ((sp.get h).drop (i % ((sp.get h).length + 1))), .ok) else (sp, .skip)
   | .clone t h => if sp.occ h then (sProduce sp t (sp.get h), .ok) else (sp, .skip)
   | .dup h =>
     if sp.occ h then
